@@ -412,9 +412,12 @@ func (g *Gen) step() {
 	// close queries eagerly so that most structural operations run unlocked
 	if open := g.openQueries(); len(open) > 0 && (len(open) > g.p.maxOpenQ || g.rng.chance(60)) && cat != "query" {
 		k := pick(g.rng, open)
-		if g.rng.chance(50) {
+		if g.rng.chance(50) && !(g.r.queries[k].batch && g.rng.chance(70)) {
 			g.do(fmt.Sprintf("qx %d", k))
 		} else {
+			if g.rng.chance(40) {
+				g.do(fmt.Sprintf("qc %d", k))
+			}
 			for i := 0; i < 10000; i++ {
 				out := g.do(fmt.Sprintf("qn %d", k))
 				if len(out) == 0 || !strings.HasPrefix(out[0], "= ok 1") {
@@ -718,7 +721,54 @@ func (g *Gen) genRelation(faulty bool) {
 			r = pick(g.rng, all)
 		}
 	}
-	switch g.rng.intn(10) {
+	switch g.rng.intn(13) {
+	case 10:
+		// swap the relation component for another one (target must become zero), also with a dead old target
+		others := []int{}
+		for _, x := range g.rels {
+			if x != r {
+				others = append(others, x)
+			}
+		}
+		if len(others) > 0 {
+			o := pick(g.rng, others)
+			g.do(fmt.Sprintf("xchg %s 1 %d 1 %d", e, o, r))
+			g.do(fmt.Sprintf("relget %s %d", e, o))
+		}
+	case 11:
+		// kill the target, recycle its id, retarget to the new occupant of that id
+		out := g.do(fmt.Sprintf("relget %s %d", e, r))
+		if len(out) > 0 && strings.HasPrefix(out[0], "= ok ") {
+			for i, h := range g.r.handles {
+				if showEnt(h) == out[0][5:] && !h.IsZero() && i != idx {
+					g.do(fmt.Sprintf("rm e%d", i))
+					g.do("new " + idsStr(g.subset(g.plain, 1)))
+					g.do(fmt.Sprintf("relset %s %d e%d", e, r, len(g.r.handles)-1))
+					g.do(fmt.Sprintf("relget %s %d", e, r))
+					break
+				}
+			}
+		}
+	case 12:
+		// retire a table, register a filter on its node, reuse the table for another target
+		comps := g.compsOf(idx)
+		out := g.do(fmt.Sprintf("relget %s %d", e, r))
+		if len(out) > 0 && strings.HasPrefix(out[0], "= ok ") && out[0] != "= ok 0:0" {
+			g.do("b_rment R A " + idsStr(comps) + " " + e[:0] + "E" + out[0][5:])
+			for i, h := range g.r.handles {
+				if showEnt(h) == out[0][5:] && !h.IsZero() {
+					g.do(fmt.Sprintf("rm e%d", i))
+					break
+				}
+			}
+			f := pick(g.rng, []string{"A " + idsStr([]int{r}), "A " + idsStr(comps), "R A " + idsStr([]int{r}) + " E" + out[0][5:]})
+			co := g.do("creg " + f)
+			g.do(fmt.Sprintf("bld I %s R %d batch %d T %s", idsStr(comps), r, 1+g.rng.intn(3), g.targetRef("")))
+			g.do("qall " + f)
+			if len(co) > 0 && strings.HasPrefix(co[0], "= ok c") {
+				g.do("qall C " + co[0][6:])
+			}
+		}
 	case 0, 1:
 		g.do(fmt.Sprintf("relget %s %d", e, r))
 	case 2:
@@ -970,10 +1020,32 @@ func (g *Gen) genDumpLoad(faulty bool) {
 		return
 	}
 	if g.rng.chance(60) {
+		if g.rng.chance(50) {
+			// keep using the dumped world before loading the dump
+			for i := 0; i < 1+g.rng.intn(4); i++ {
+				if g.rng.chance(50) {
+					g.do("rm " + g.entRef(false))
+				} else {
+					g.do("new " + idsStr(g.compSet(2)))
+				}
+			}
+		}
+		if g.rng.chance(30) {
+			k = strconv.Itoa(g.rng.intn(len(g.r.dumps)))
+		}
 		g.do("reset")
 		g.do("load " + k)
 		g.do("dump")
 		g.do("shape pif")
+		kk, _ := strconv.Atoi(k)
+		for _, e := range g.r.dumps[kk].Entities {
+			if !e.IsZero() && g.rng.chance(50) {
+				g.do(fmt.Sprintf("alive E%d:%d", e.ID(), e.Generation()))
+			}
+		}
+		g.do("qall A 0")
+		g.do("new 0")
+		g.do("new 0")
 	}
 }
 
@@ -1056,8 +1128,18 @@ func (g *Gen) genObserve() {
 }
 
 // Generate produces one sequence of about n operations.
-func Generate(seed uint64, p profile, n int) *Gen {
-	g := &Gen{r: NewRunner(), rng: &rng{s: seed}, p: p}
+func Generate(seed uint64, p profile, n int) (g *Gen) {
+	g = &Gen{r: NewRunner(), rng: &rng{s: seed}, p: p}
+	defer func() {
+		// a probe of the generator itself (Ids, Stats, …) crashed: the world is corrupt.
+		// Keep the operations issued so far; the comparison with the model decides.
+		if x := recover(); x != nil {
+			g.ops = append(g.ops, fmt.Sprintf("# generator probe crashed: %v", x))
+			g.outs = append(g.outs, nil)
+			defer func() { recover() }()
+			g.do("snapshot")
+		}
+	}()
 	g.setup()
 	for len(g.ops) < n {
 		g.step()
